@@ -70,6 +70,27 @@ CMPOPS = {ast.Eq: '==', ast.NotEq: '!=', ast.Lt: '<', ast.LtE: '<=', ast.Gt: '>'
           ast.IsNot: 'is not', ast.In: 'in', ast.NotIn: 'not in'}
 
 
+_CMP_FLIP = {'<': '>', '<=': '>=', '>': '<', '>=': '<=', '==': '==', '!=': '!='}
+
+
+def _cmp_rank(t):
+    if isinstance(t, tuple) and t and t[0] in ('num', 'k'):
+        return 0
+    if isinstance(t, tuple) and t and t[0] == 'p':
+        return 1
+    return 2
+
+
+def canon_cmp(op, l, r):
+    """One orientation per comparison (`b > a` and `a < b` are the same term): the structurally richer operand stands on
+    the left (constant < parameter < anything else; ties by text)."""
+    if op in _CMP_FLIP:
+        kl, kr = (_cmp_rank(l), repr(l)), (_cmp_rank(r), repr(r))
+        if (kl[0] < kr[0]) or (kl[0] == kr[0] and kl[1] > kr[1]):
+            return ('cmp', _CMP_FLIP[op], r, l)
+    return ('cmp', op, l, r)
+
+
 class Normalizer:
     def __init__(self, fnode, shapes, module_funcs, ref_nparams=None, helper_rules=True, global_names=()):
         self.fn = fnode
@@ -365,7 +386,7 @@ class Normalizer:
             parts = []
             for op, c in zip(e.ops, e.comparators):
                 r = self.expr(c, env)
-                parts.append(('cmp', CMPOPS[type(op)], l, r))
+                parts.append(canon_cmp(CMPOPS[type(op)], l, r))
                 l = r
             return parts[0] if len(parts) == 1 else ('and', tuple(parts))
         if isinstance(e, ast.Tuple):
